@@ -20,13 +20,16 @@ def ties(ctx):
     n = 800 if ctx.tier == 'quick' else 20000
     return [run_conc(ctx, 'c19', 'shuttle', n, drivers=('dg',)),
             run_conc(ctx, 'c18', 'shuttle', n, drivers=('dg',), seed_offset=1),
-            run_conc(ctx, 'c14', 'threads', max(30, n // 5), drivers=('dg',), seed_offset=2)]
+            run_conc(ctx, 'c14', 'threads', max(30, n // 5), drivers=('dg',), seed_offset=2),
+            # panicking / cancelled owners with waiters: the outcome delivered to each waiter (tok= bits of
+            # the release_panicking line) is checked by the Lean driver against the model's wake-up result
+            run_conc(ctx, 'c19p', 'threads', max(40, n // 10), drivers=('dg',), seed_offset=3)]
 
 def search(ctx, reason):
     for sc, mode in (('c19', 'shuttle'), ('c18', 'shuttle'), ('c16', 'threads')):
         t = run_conc(ctx, sc, mode, 8000, seed_offset=50)
         for f in t.failures:
-            if f.kind == 'oracle':
+            if f.kind == 'oracle' and f.key not in listed_keys():
                 return f
     return None
 
